@@ -127,3 +127,12 @@ def r2(ctx: Ctx) -> None:
             ok = rr1 == rad(m1) and rr2 == rad(m2) and m1 != m2
     if not ok:
         ctx.report(t.where, "caller-radii", "total_intersection_area does not call the overlap with (m.center, sqrt(m.area()/pi)) for both modules", lineno=t.node.lineno)
+
+
+@rule("C17", "R3.centre-distance", "LAW",
+      "the distance between the two centres is computed exactly and symmetrically: Point subtraction is component-wise "
+      "p + (-q) without rounding, and the norm is sqrt(x^2 + y^2) for every vector (no special case that could return a "
+      "negative or signed value)", floor=4)
+def r3(ctx: Ctx) -> None:
+    from .points import point_arithmetic
+    point_arithmetic(ctx, ops={"__neg__", "__add__", "__sub__", "norm"})
